@@ -52,7 +52,9 @@ func writeCsv(c *Ctx, cfg csvCfgT, eol string, rows [][]string, forceQuote bool)
 }
 
 func runCsvCase(c *Ctx, cfg csvCfgT, eol string, rows [][]string, text string) {
-	kind := fmt.Sprintf("c:%s:%s", runesStr(cfg.seps), runesStr(cfg.quotes))
+	// the configuration is reached through one of three histories of setter calls (c: quotes cleared, separators,
+	// quotes; C: separators, then quotes replacing the default one; D: other quotes and separators first)
+	kind := fmt.Sprintf("%s:%s:%s", []string{"c", "C", "D"}[c.Rng.Intn(3)], runesStr(cfg.seps), runesStr(cfg.quotes))
 	op := tokOpLine(kind, 64, []rune(text))
 	ts, st := tokenizeImpl(kind, 64, text)
 	nf := 0
